@@ -84,6 +84,9 @@ class Module:
         return ast.get_source_segment(self.source, node) or ast.unparse(node)
 
 
+CURRENT_REPO = None
+
+
 class Repo:
     def __init__(self, root: str = "/repo"):
         self.root = os.path.abspath(root)
@@ -94,6 +97,8 @@ class Repo:
         self.modules: Dict[str, Module] = {}
         self._digest = hashlib.sha256()
         self._load()
+        global CURRENT_REPO
+        CURRENT_REPO = self  # the most recently loaded tree (used by sa/flatten.py to follow imported helper functions)
         if os.environ.get("VERIF_FLATTEN", "0") == "1":  # experiment switch: flatten every function (not used by the checks)
             self._flatten_all()
 
